@@ -199,6 +199,17 @@ func c11Run(m c11Model, x, t *ref.T, init c11Weights, defaultInit bool, steps in
 				}
 			}
 		}
+		if dev.has("evalforward", s, 0) || dev.has("evalforward", s, 1) {
+			// an evaluation pass (result discarded) between back-propagation and the update changes nothing
+			ye, err := fc.Forward(xr)
+			if err == nil && m.act.K != "" {
+				ye, err = rt.Apply(m.act, []tensor.Tensor{ye})
+			}
+			if err != nil {
+				return core.Fail("step %d evaluation Forward: %v", s, err)
+			}
+			_ = ye
+		}
 		ws := fc.Weights()
 		for k := 0; k < 2; k++ {
 			before := *ws[k].Value
@@ -326,6 +337,9 @@ func checkC11(c *core.Ctx) {
 		for k := 0; k < 2; k++ {
 			for _, kind := range []string{"noreset", "resetfalse", "update2", "skipupdate"} {
 				single = append(single, c11Dev{kind: kind, step: s, k: k})
+			}
+			if k == 0 {
+				single = append(single, c11Dev{kind: "evalforward", step: s, k: k})
 			}
 		}
 	}
